@@ -31,6 +31,7 @@ def e3_bursts(run):
         if line.startswith('X ') and len(f) > 2:
             return f[2] in tags
         return len(f) > 1 and f[0] in proto.CLIENT_CMDS and f[1] in ids
+    unanswered = []
     for N in (1, 8, 9, 12, 20, 40):
         conf = e3.plain_conf(b, services=services, timeout=30, rules=pcommon.rules_for(services))
         d = e3.Daemon(conf, b=b)
@@ -42,10 +43,13 @@ def e3_bursts(run):
             burst += ''.join('%s D\n' % i for i in ids) + '-1 ? stats\n'
             d.write(burst.encode())
             if not d.wait_for(lambda o: b'srv alloc' in o and o.endswith(b'\n'), 30):
-                raise common.HarnessError('E3 burst: the stats request that serves as barrier was not answered within 30 s')
+                # the daemon has stopped reading (or answering): not this property's business by itself - part B shows whether a withdrawn client gets a verdict
+                unanswered.append(N)
+                d.close(5)
+                continue
             mark = len(d.lines())
             time.sleep(0.6)
-            rc, out, err = d.close()
+            rc, out, err = d.close(10)
         except Exception:
             d.close()
             raise
@@ -73,7 +77,7 @@ def e3_bursts(run):
             burst += '100 D\n101 D\n'
             d.write(burst.encode())
             time.sleep(2.2)
-            rc, out, err = d.close()
+            rc, out, err = d.close(10)
         except Exception:
             d.close()
             raise
@@ -82,6 +86,8 @@ def e3_bursts(run):
         if bad or rc != 0:
             run.violation('C01.verdict-not-live', '[E3 burst] a waiting client, %d bytes of other traffic and its D in one write, 1 s request timeout, server quiet for 2.2 s: the daemon wrote %r (exit %s)' % (len(burst), bad[:3], rc),
                           {'engine': 'E3', 'conf': conf, 'burst_bytes': len(burst), 'stdout_tail': out[-8:]}, dedup='e3quiet')
+    if unanswered and not run.violations:
+        raise common.HarnessError('E3 burst: the stats request that serves as barrier was not answered within 30 s (bursts of %s clients)' % unanswered)
     return {'e3_burst_runs': n}
 
 
